@@ -266,48 +266,85 @@ func (g *gen) detHarnesses(m *Message) {
 			g.p("")
 		}
 	}
-	// maps one level down, in every container shape
-	for _, c := range m.All {
-		tn := ""
-		switch {
-		case c.Card == "map" && c.Val.Kind == "message":
-			tn = c.Val.MsgName
-		case c.Kind == "message" && c.Card != "map":
-			tn = c.MsgName
-		}
-		if tn == "" {
-			continue
-		}
-		tm := g.s.ByName[tn]
-		var mf *Field
-		for _, f := range tm.All {
-			if f.Card == "map" {
-				mf = f
-				break
+	// maps one or two levels down, in every container shape: Deterministic must propagate
+	// through every nested marshal call
+	type hop struct {
+		c  *Field
+		tn string
+	}
+	hopsOf := func(mm *Message) []hop {
+		var out []hop
+		for _, c := range mm.All {
+			tn := ""
+			switch {
+			case c.Card == "map" && c.Val.Kind == "message":
+				tn = c.Val.MsgName
+			case c.Kind == "message" && c.Card != "map":
+				tn = c.MsgName
+			}
+			if tn != "" {
+				out = append(out, hop{c, tn})
 			}
 		}
-		if mf == nil {
-			continue
+		return out
+	}
+	firstMap := func(mm *Message) *Field {
+		for _, f := range mm.All {
+			if f.Card == "map" {
+				return f
+			}
 		}
-		g.p("// a map inside the message held by %s (%s): Deterministic must propagate", c.GoName, c.Card)
-		g.p("func VH_C05_%s_via_%s() {", n, c.GoName)
-		g.p("\tx := &%s{}", n)
-		g.p("\tt := &%s{}", tn)
-		g.p("\tvhDetBuild_%s_%s(t, \"a\")", tn, mf.GoName)
+		return nil
+	}
+	attach := func(parent string, c *Field, child string, ind string) {
 		switch c.Card {
 		case "singular":
-			g.p("\tx.%s = t", c.GoName)
+			g.p("%s%s.%s = %s", ind, parent, c.GoName, child)
 		case "repeated":
-			g.p("\tx.%s = %s{t}", c.GoName, c.GoType)
+			g.p("%s%s.%s = %s{%s}", ind, parent, c.GoName, c.GoType, child)
 		case "oneof":
-			g.p("\tx.%s = &%s{%s: t}", c.Oneof.GoName, c.Wrapper, c.WField)
+			g.p("%s%s.%s = &%s{%s: %s}", ind, parent, c.Oneof.GoName, c.Wrapper, c.WField, child)
 		case "map":
-			g.p("\tvar zk %s", c.Key.GoType)
-			g.p("\tx.%s = %s{zk: t}", c.GoName, c.MapGo)
+			g.p("%s{", ind)
+			g.p("%s\tvar zk %s", ind, c.Key.GoType)
+			g.p("%s\t%s.%s = %s{zk: %s}", ind, parent, c.GoName, c.MapGo, child)
+			g.p("%s}", ind)
 		}
-		g.p("\tvhC05_%s(x)", n)
-		g.p("}")
-		g.p("")
+	}
+	for _, h1 := range hopsOf(m) {
+		t1 := g.s.ByName[h1.tn]
+		if mf := firstMap(t1); mf != nil {
+			g.p("// a map inside the message held by %s (%s)", h1.c.GoName, h1.c.Card)
+			g.p("func VH_C05_%s_via_%s() {", n, h1.c.GoName)
+			g.p("\tx := &%s{}", n)
+			g.p("\tt := &%s{}", h1.tn)
+			g.p("\tvhDetBuild_%s_%s(t, \"a\")", h1.tn, mf.GoName)
+			attach("x", h1.c, "t", "\t")
+			g.p("\tvhC05_%s(x)", n)
+			g.p("}")
+			g.p("")
+			continue
+		}
+		// the direct child has no map: go one level further (first grandchild that has one)
+		for _, h2 := range hopsOf(t1) {
+			t2 := g.s.ByName[h2.tn]
+			mf := firstMap(t2)
+			if mf == nil {
+				continue
+			}
+			g.p("// a map two levels down: %s (%s) -> %s (%s)", h1.c.GoName, h1.c.Card, h2.c.GoName, h2.c.Card)
+			g.p("func VH_C05_%s_via_%s_%s() {", n, h1.c.GoName, h2.c.GoName)
+			g.p("\tx := &%s{}", n)
+			g.p("\tt1 := &%s{}", h1.tn)
+			g.p("\tt2 := &%s{}", h2.tn)
+			g.p("\tvhDetBuild_%s_%s(t2, \"a\")", h2.tn, mf.GoName)
+			attach("t1", h2.c, "t2", "\t")
+			attach("x", h1.c, "t1", "\t")
+			g.p("\tvhC05_%s(x)", n)
+			g.p("}")
+			g.p("")
+			break
+		}
 	}
 }
 
